@@ -5,6 +5,7 @@ mod gast;
 mod gen;
 mod jobs;
 mod op_trace;
+mod op_validate;
 mod render;
 mod rng;
 mod schemas;
